@@ -9,7 +9,7 @@ RULE = ("C API histories under every g_cpu_features level: init / init_keyed / i
         "embedded NULs for raw), update splits from the C02 size classes, finalize(out_len) and finalize_seek(seek, out_len) with seeks "
         "from the C03 boundary set and out_len in {0..130, 64j+-1, <=5000}, reset, clone, samelive (finalize leaves the hasher "
         "unchanged; reset == fresh init; the two derive-key initialisers agree); outputs flush against guard pages; round_down_to_power_of_2 and popcnt of blake3_impl.h at every 2^k-1, 2^k, 2^k+1 (k < 64); "
-        "non-trivial = at least two updates or a seek; distinct = distinct script")
+        "three builds of the library: assembly dispatch, C intrinsics dispatch, SSE2-only (-DBLAKE3_NO_SSE41 -DBLAKE3_NO_AVX2 -DBLAKE3_NO_AVX512); non-trivial = at least two updates or a seek; distinct = distinct script")
 ASSUMPTIONS = ["SIMD kernels satisfy the kernel contract (C05); the dispatcher selects among them by g_cpu_features (forced by the harness)"]
 NOT_PROVED = []
 M64 = (1 << 64) - 1
@@ -74,6 +74,19 @@ def history(rng, feat, nops, big):
     return Script(ops, tags=tuple(sorted(tags)), nontrivial=upd >= 2 or sk > 0)
 
 
+def null_update_scripts(rng):
+    """the documented empty call update(NULL, 0) in every position of a short history (fresh, mid-block, after a whole chunk)"""
+    out = []
+    for feat in ("avx512", "portable"):
+        for pre in (0, 1, 64, 65, 1024, 2048):
+            ops = [f"C feat {feat}", f"C init a {mode_tok(rng)}", "C updnull a"]
+            if pre:
+                ops += [f"C upd a {pat(pre, rng)}", "C updnull a"]
+            ops += ["C fin a 32", f"C upd a {pat(3, rng)}", "C updnull a", "C fin a 40"]
+            out.append(Script(ops, tags=("null-empty-update", feat)))
+    return out
+
+
 def stages(tier, seed, witness_search=False):
     rng = Rng(seed)
     n = 300 if tier == "quick" else 6000
@@ -109,10 +122,15 @@ def stages(tier, seed, witness_search=False):
     for x in sorted(xs):
         ar += [f"C rdp2 {x}", f"C popcnt {x}"]
     scripts.append(Script(ar, tags=("arith-helpers",)))
+    scripts += null_update_scripts(rng)
     return [LineStage("c-api", scripts, impl="c"),
             # the same histories against the library built with the C intrinsics kernels behind the dispatcher
-            LineStage("c-api-intrinsics", scripts, impl="c_ci")]
+            LineStage("c-api-intrinsics", scripts, impl="c_ci"),
+            # the library compiled as an SSE2-only build (BLAKE3_NO_SSE41 / NO_AVX2 / NO_AVX512): widest SIMD degree 4
+            LineStage("c-api-sse2-only-build", scripts[::2], impl="c_s2")]
 
 
 def replay(d, lean_exe):
+    if d.get("stage") == "c-api-sse2-only-build":
+        return replay_line(d, lean_exe, impl="c_s2")
     return replay_line(d, lean_exe, impl="c_ci" if d.get("stage") == "c-api-intrinsics" else "c")
